@@ -1,4 +1,5 @@
 from collections.abc import Callable
+from threading import RLock
 from typing import TypeVar
 
 from reactivex import ConnectableObservable, Observable, abc
@@ -16,6 +17,9 @@ def ref_count_() -> Callable[[ConnectableObservable[_T]], Observable[_T]]:
     def ref_count(source: ConnectableObservable[_T]) -> Observable[_T]:
         connectable_subscription: abc.DisposableBase | None = None
         count = 0
+        # Subscribers come and go on any thread: counting and the connect /
+        # disconnect decision it triggers must be one atomic step
+        lock = RLock()
 
         def subscribe(
             observer: abc.ObserverBase[_T],
@@ -23,19 +27,21 @@ def ref_count_() -> Callable[[ConnectableObservable[_T]], Observable[_T]]:
         ) -> abc.DisposableBase:
             nonlocal connectable_subscription, count
 
-            count += 1
-            should_connect = count == 1
-            subscription = source.subscribe(observer, scheduler=scheduler)
-            if should_connect:
-                connectable_subscription = source.connect(scheduler)
+            with lock:
+                count += 1
+                should_connect = count == 1
+                subscription = source.subscribe(observer, scheduler=scheduler)
+                if should_connect:
+                    connectable_subscription = source.connect(scheduler)
 
             def dispose() -> None:
                 nonlocal connectable_subscription, count
 
-                subscription.dispose()
-                count -= 1
-                if not count and connectable_subscription:
-                    connectable_subscription.dispose()
+                with lock:
+                    subscription.dispose()
+                    count -= 1
+                    if not count and connectable_subscription:
+                        connectable_subscription.dispose()
 
             return Disposable(dispose)
 
